@@ -1,7 +1,223 @@
 import ASV.Drv.J
+import ASV.Drv.C01
+import ASV.Spec.Grammar
+import ASV.Generated.ShippedRules
 namespace ASV.Drv.C02
-open Lean ASV ASV.Drv
+open Lean ASV ASV.Drv ASV.Rules ASV.Parser ASV.Grammar
 
-def handle (_j : Json) : R Json := throw "C02: no model yet"
+partial def condToJson : Cond → Json
+  | .single neg n => jArr [Json.str "single", toJson neg, Json.str n]
+  | .score neg n s => jArr [Json.str "score", toJson neg, Json.str n, toJson s]
+  | .minimum neg c opts => jArr [Json.str "minimum", toJson neg, toJson c, jStrs (sortDedupStr opts)]
+  | .cds neg subs => jArr [Json.str "cds", toJson neg, jArr (subs.map condToJson)]
+  | .group neg subs => jArr [Json.str "group", toJson neg, jArr (subs.map condToJson)]
+  | .conj subs => jArr [Json.str "conj", jArr (subs.map condToJson)]
+
+def optJson {α} (f : α → Json) : Option α → Json
+  | some a => f a
+  | none => Json.null
+
+def exampleToJson (e : Example) : Json :=
+  jArr [Json.str e.database, Json.str e.accession, toJson e.version, toJson e.start, toJson e.stop,
+        optJson Json.str e.compound]
+
+def cfgOfJson (j : Json) : R Cfg := do
+  let pair (k : String) : R (Nat × Nat) := do
+    match (j.getObjVal? k).toOption with
+    | none => pure (1, 1)
+    | some v => pure (← asNat (← idx v 0), ← asNat (← idx v 1))
+  return { sigs := ← listOf asStr (← fld j "sigs"), cats := ← listOf asStr (← fld j "cats"),
+           cutoffMul := ← pair "cmul", nbhMul := ← pair "nmul" }
+
+/-- a rule of the model's output, with its regenerated text and what parsing that text gives -/
+def ruleToJson (cfg : Cfg) (r : Rule) : Json :=
+  let text := r.reconstruct
+  let re : Json :=
+    match parseText { cfg with cutoffMul := (1, 1), nbhMul := (1, 1) } [] [] text with
+    | .error e => jObj [("err", Json.str e.name)]
+    | .ok (rs, _) =>
+      match rs with
+      | [r'] => jObj [("name", Json.str r'.name), ("cutoff", toJson r'.cutoff),
+                      ("neighbourhood", toJson r'.neighbourhood), ("cond", condToJson r'.conditions),
+                      ("cond_str", Json.str (printCond r'.conditions))]
+      | _ => jObj [("err", Json.str "count")]
+  jObj [("name", Json.str r.name), ("category", Json.str r.category), ("cutoff", toJson r.cutoff),
+        ("neighbourhood", toJson r.neighbourhood), ("cond", condToJson r.conditions),
+        ("cond_str", Json.str (printCond r.conditions)),
+        ("extenders", optJson condToJson r.extenders),
+        ("ext_str", optJson (fun e => Json.str (printCond e)) r.extenders),
+        ("superiors", jStrs r.superiors), ("related", jStrs r.related),
+        ("description", Json.str (" ".intercalate r.description)),
+        ("examples", jArr (r.examples.map exampleToJson)),
+        ("text", Json.str text), ("re", re)]
+
+/-- implementation output → `Rule` (only the fields the spec predicates look at) -/
+def ruleOfJson (j : Json) : R Rule := do
+  let ext ← (match (j.getObjVal? "extenders").toOption with
+    | none => pure none
+    | some Json.null => pure none
+    | some v => do pure (some (← C01.condOfJson v)) : R (Option Cond))
+  return { name := ← strF j "name", category := ← strF j "category", cutoff := ← natF j "cutoff",
+           neighbourhood := ← natF j "neighbourhood", conditions := ← C01.condOfJson (← fld j "cond"),
+           superiors := ← listOf asStr (← fld j "superiors"), related := ← listOf asStr (← fld j "related"),
+           extenders := ext }
+
+partial def atomOfJson (j : Json) : R Atom := do
+  let tag ← asStr (← idx j 0)
+  let neg ← asBool (← idx j 1)
+  match tag with
+  | "id" => return .id neg (← asStr (← idx j 2))
+  | "paren" => return .paren neg (← orOfJson (← idx j 2))
+  | "cds" => return .cds neg (← orOfJson (← idx j 2))
+  | "minimum" => return .minimum neg (← asNat (← idx j 2)) (← listOf asStr (← idx j 3))
+  | "minscore" => return .minscore neg (← asStr (← idx j 2)) (← asNat (← idx j 3))
+  | t => throw s!"unknown atom tag {t}"
+where
+  andOfList : List Json → R AndE
+    | [] => throw "empty and-chain"
+    | [a] => do return .one (← atomOfJson a)
+    | a :: rest => do return .and (← atomOfJson a) (← andOfList rest)
+  orOfList : List Json → R OrE
+    | [] => throw "empty or-chain"
+    | [a] => do return .one (← andOfList (← asArr a))
+    | a :: rest => do return .or (← andOfList (← asArr a)) (← orOfList rest)
+  orOfJson (j : Json) : R OrE := do orOfList (← asArr j)
+
+def orOfJson (j : Json) : R OrE := do atomOfJson.orOfList (← asArr j)
+
+/-- structural equality of condition objects up to the order of `minimum` options -/
+partial def condEq : Cond → Cond → Bool
+  | .single a n, .single b m => a == b && n == m
+  | .score a n s, .score b m t => a == b && n == m && s == t
+  | .minimum a c o, .minimum b d p => a == b && c == d && sortDedupStr o == sortDedupStr p && o.length == p.length
+  | .cds a s, .cds b t => a == b && s.length == t.length && (s.zip t).all fun x => condEq x.1 x.2
+  | .group a s, .group b t => a == b && s.length == t.length && (s.zip t).all fun x => condEq x.1 x.2
+  | .conj s, .conj t => s.length == t.length && (s.zip t).all fun x => condEq x.1 x.2
+  | _, _ => false
+
+/-! a small family of pseudo-random environments for comparing two conditions' meanings -/
+def lcg (x : Nat) : Nat := (x * 6364136223846793005 + 1442695040888963407) % 18446744073709551616
+
+def envFor (profs : List String) (seed : Nat) : Env :=
+  let scores : List Int := [0, 8, 10, 12, 100, 300, 2000]
+  let genHits (g : Nat) : List (Prof × Int) :=
+    (profs.zipIdx.filterMap fun (p, i) =>
+      let r := lcg (lcg (seed * 1000003 + g * 7919 + i * 104729 + 17))
+      if (r / 65536) % 2 == 0 then none
+      else some (p, scores.getD ((r / 1048576) % scores.length) 0))
+  let table := [0, 1, 2].map fun g => (g, genHits g)
+  { genes := [0, 1, 2], withHits := (table.filter fun x => !x.2.isEmpty).map (·.1),
+    hits := fun g => (table.lookup g).getD [],
+    loc := fun g => if g == 0 then .simple ⟨100, 200, .fwd⟩ else if g == 1 then .simple ⟨205, 300, .rev⟩
+                    else .simple ⟨5000, 5100, .fwd⟩,
+    cutoff := 10, circ := 0 }
+
+def semAgree (a b : Cond) : Bool :=
+  let profs := sortDedupStr (a.profiles ++ b.profiles)
+  (List.range 40).all fun seed =>
+    let e := envFor profs seed
+    [0, 1, 2].all fun g => sem e g a == sem e g b
+
+def tokensJson (toks : List Tok) : Json := jArr (toks.map fun t => jArr [Json.str t.text, Json.str t.type.name])
+
+structure Expect where
+  name : String
+  category : String
+  cutoffKb : Nat
+  nbhKb : Nat
+  decl : List String
+  conds : OrE
+  extenders : Option Atom
+
+def expectOfJson (j : Json) : R Expect := do
+  let ext ← (match (j.getObjVal? "extenders").toOption with
+    | none => pure none
+    | some Json.null => pure none
+    | some v => do pure (some (← atomOfJson v)) : R (Option Atom))
+  return ⟨← strF j "name", ← strF j "category", ← natF j "cutoff_kb", ← natF j "nbh_kb",
+          ← listOf asStr (← fld j "superiors"), ← orOfJson (← fld j "conds"), ext⟩
+
+/-- the documented reading of a generated, well-formed rule file vs what the implementation returned -/
+def expectCheck (cfg : Cfg) (exp : List Expect) (impl : List Rule) : Option String :=
+  if exp.length != impl.length then some s!"expected {exp.length} rules, implementation has {impl.length}" else
+  let decl (n : String) : List String := ((exp.find? (·.name == n)).map (·.decl)).getD []
+  (exp.zip impl).findSome? fun (x, r) =>
+    if x.name != r.name then some s!"rule name {r.name}, expected {x.name}"
+    else if x.category != r.category then some s!"{x.name}: category"
+    else if r.cutoff != distance x.cutoffKb cfg.cutoffMul then some s!"{x.name}: cutoff {r.cutoff}"
+    else if r.neighbourhood != distance x.nbhKb cfg.nbhMul then some s!"{x.name}: neighbourhood {r.neighbourhood}"
+    else if !condEq r.conditions (shapeTop x.conds) then
+      some s!"{x.name}: conditions {printCond r.conditions} do not have the documented shape {printCond (shapeTop x.conds)}"
+    else if !semAgree r.conditions (shapeTop x.conds) then some s!"{x.name}: meaning differs"
+    else if r.superiors != sortDedupStr (reach decl exp.length x.name) then some s!"{x.name}: superiors {r.superiors}"
+    else match x.extenders, r.extenders with
+      | none, none => none
+      | some a, some e => if condEq e (match a with | .cds neg t => .cds neg (shapeOr t) | a => shapeAtom a) then none
+                          else some s!"{x.name}: extenders"
+      | _, _ => some s!"{x.name}: extenders presence"
+
+/-- the shipped rule files (regenerated table) of every strictness level up to `level` -/
+def shippedUpTo (level : String) : List (String × String) → R (List String)
+  | [] => throw s!"unknown strictness level {level}"
+  | (l, text) :: rest => if l == level then pure [text] else do return text :: (← shippedUpTo level rest)
+
+def handleParse (j : Json) : R Json := do
+  let cfg ← cfgOfJson j
+  let files ← (match (j.getObjVal? "shipped").toOption with
+    | some (Json.str level) => shippedUpTo level Generated.ShippedRules.files
+    | _ => do listOf asStr (← fld j "files") : R (List String))
+  let model := match createRules cfg files [] [] with
+    | .error e => jObj [("err", Json.str e.name)]
+    | .ok rules => jObj [("rules", jArr (rules.map (ruleToJson cfg)))]
+  -- executable spec on the implementation's output
+  let mut spec : List (String × Json) := []
+  match (j.getObjVal? "impl").toOption with
+  | none => pure ()
+  | some Json.null => pure ()
+  | some implJ =>
+    let impl ← listOf ruleOfJson implJ
+    spec := spec ++ [("rules_ok", toJson (rulesOk cfg impl)),
+                     ("names_distinct", toJson (namesDistinct impl)),
+                     ("sup_closed", toJson (supClosed impl)),
+                     ("rule_ok", jArr (impl.map fun r => toJson (ruleOk cfg r)))]
+    match (j.getObjVal? "expect").toOption with
+    | none => pure ()
+    | some Json.null => pure ()
+    | some expJ =>
+      let exp ← listOf expectOfJson expJ
+      spec := spec ++ [("expect", optJson Json.str (expectCheck cfg exp impl)),
+                       ("expect_ok", toJson ((exp.all fun x => okTop x.conds)))]
+    -- reparse of the regenerated text
+    let res ← (← asArr implJ).mapM fun rj => do
+      match (rj.getObjVal? "re").toOption with
+      | none => pure Json.null
+      | some Json.null => pure Json.null
+      | some re =>
+        let r ← ruleOfJson rj
+        match (re.getObjVal? "err").toOption with
+        | some _ => pure (Json.str "rejected")
+        | none =>
+          let c' ← C01.condOfJson (← fld re "cond")
+          let name' ← strF re "name"
+          let wholeKb := r.cutoff % 1000 == 0 && r.neighbourhood % 1000 == 0
+          if name' != r.name then pure (Json.str "name")
+          else if wholeKb && ((← natF re "cutoff") != r.cutoff || (← natF re "neighbourhood") != r.neighbourhood) then
+            pure (Json.str "distance")
+          else if !semAgree r.conditions c' then pure (Json.str "meaning")
+          else pure (Json.str "ok")
+    spec := spec ++ [("reparse", jArr res)]
+  return jObj [("model", model), ("spec", jObj spec)]
+
+def handleTokens (j : Json) : R Json := do
+  let text ← strF j "text"
+  match tokenise text with
+  | .error e => return jObj [("err_tok", Json.str e.name)]
+  | .ok toks => return jObj [("tokens", tokensJson toks)]
+
+def handle (j : Json) : R Json := do
+  match (← strF j "kind") with
+  | "tokens" => handleTokens j
+  | "parse" => handleParse j
+  | k => throw s!"C02: unknown kind {k}"
 
 end ASV.Drv.C02
